@@ -105,7 +105,7 @@ PROPS = {
         pkg="c19", level="exploration",
         tests=[T("TestC19", Q(50000), Q(200000, timeout=900, shards=8)),
                T("TestC19Conc", Q(400, timeout=300, shrinktime="20s"), Q(3000, timeout=900, shards=4, shrinktime="60s")),
-               T("TestC19Engine", Q(8, timeout=400, shards=2, shrinktime="20s"), Q(60, timeout=1500, shards=8, shrinktime="60s"))],
+               T("TestC19Engine", Q(8, timeout=400, shards=2, shrinktime="20s"), Q(60, timeout=1800, shards=4, shrinktime="60s"))],
         rule="Per shard (1-3 shards) a consistent world is drawn (term -> at most one leader, config-change index -> one membership, as Raft guarantees) and 1-8 updates sampled from it "
              "(incl. 'leader unknown' at any term, stale terms); the multiset is delivered to the real view in two independent random orders with duplicates, split into batches of 1-4, "
              "a third of the batches routed through an intermediate view's LocalState -> JSON -> MergeRemoteState. Oracle: both final views == model (max-term leader, max-CCI membership); after every "
@@ -205,7 +205,7 @@ PROPS = {
         pkg="c05", level="exploration", journal_cases=True,
         tests=[T("TestC05", Q(30, timeout=400, shards=4, shrinktime="30s"), Q(100, timeout=1500, shards=16, shrinktime="90s")),
                T("TestC05Tables", Q(40, timeout=300, shrinktime="20s"), Q(200, timeout=900, shards=2, shrinktime="60s")),
-               T("TestC05Live", Q(12, timeout=400, shards=4, shrinktime="30s"), Q(60, timeout=1500, shards=12, shrinktime="90s"))],
+               T("TestC05Live", Q(12, timeout=400, shards=4, shrinktime="30s"), Q(80, timeout=1500, shards=8, shrinktime="90s"))],
         rule="TestC05: a real leader engine and a real follower engine (in-process, single-node clusters) wired like cmd/leader.go / cmd/follower.go with three Log servers (message-size limits 256 B, 4 KiB, 4 MiB; odd shards run "
              "the leader with the log cache on), real Snapshot/Metadata/KV services over loopback gRPC; the replication worker is built by the real factory and stepped by the harness (verif hook). Histories of 3-40 actions: leader put "
              "(values up to 3 KB) / delete / range delete / non-idempotent txn (if ctr==n then ctr:=n+1 else ctr:=0 + range delete), poll(one worker iteration against a drawn Log server, incl. snapshot recovery when the leader answers "
@@ -314,7 +314,7 @@ PROPS = {
     ),
     "C16": dict(
         pkg="c16", level="exploration", needs_binary=True,
-        tests=[T("TestC16", Q(500, timeout=300, shrinktime="20s"), Q(2500, timeout=1500, shards=8, shrinktime="60s"))],
+        tests=[T("TestC16", Q(500, timeout=300, shrinktime="20s"), Q(2500, timeout=1800, shards=4, shrinktime="60s"))],
         fuzz=[dict(target="FuzzC16", seconds=240)],
         rule="A real `regatta leader` process and a real `regatta follower` process replicating from it (production wiring, loopback gRPC, data in a scratch dir) serve every case. A case is 3-25 requests "
              "(Range, IterateRange, Put, DeleteRange, Txn, Tables Create/Delete/List) to the leader or the follower, sent as exact wire bytes through a pass-through codec. Each request is built valid and then 0, 1 or several documented defects are injected: "
